@@ -55,6 +55,7 @@ class Ctx:
         self.assumptions: List[str] = []
         self.notes: List[str] = []
         self.rules_run: List[str] = []
+        self.deferred_errors: List[str] = []
         self.exhaustive = True
         self.t0 = time.time()
 
@@ -88,7 +89,8 @@ class Ctx:
         """instance-count floor: a rule that matches fewer constructs than were
         confirmed by hand on the pinned tree must not pass vacuously"""
         if got < floor:
-            raise AnalysisError(f"{rule}: only {got} instances of {what} (floor {floor}) - anchors moved, rule would pass vacuously")
+            # deferred: the other rules still run (a violation found elsewhere takes precedence over exit 2)
+            self.deferred_errors.append(f"{rule}: only {got} instances of {what} (floor {floor}) - anchors moved, rule would pass vacuously")
 
     def oracle(self, text: str) -> None:
         if text not in self.oracles:
